@@ -190,7 +190,8 @@ theorem decodeRR_sound (ip6 : Bytes → PtrIP) (ent ent' : DNSEntry) (m : Bytes)
     split at hm
     · -- PTR
       split at hm
-      · simp at hm
+      · injection hm with hm; injection hm with a b; injection b with b c
+        subst a; exact ⟨b.symm, rfl, Or.inl rfl, Or.inl rfl⟩
       · injection hm with hm; injection hm with a b; injection b with b c
         subst a; exact ⟨b.symm, rfl, Or.inl rfl, Or.inl rfl⟩
       · split at hm
